@@ -504,7 +504,7 @@ Section NodeInv.
         end
     end.
   Proof.
-    intros [A [B [C D]]] Eh Er Hs Hv. unfold qm_append.
+    intros [A [B [C D]]] Eh Er Hs Hv. unfold qm_append. gunf.
     destruct (memN (v_author v) (qm_used m)) eqn:Em; [split; [split; auto|exact I]|].
     assert (Hnin : ~ In (v_author v) (map fst (qm_votes m))).
     { intro Hin. apply B in Hin. apply memN_in in Hin. congruence. }
@@ -551,7 +551,7 @@ Section NodeInv.
         end
     end.
   Proof.
-    intros [A [B [C D]]] Er Hs Hv. unfold tm_append. unfold tm_authors in *.
+    intros [A [B [C D]]] Er Hs Hv. unfold tm_append. gunf. unfold tm_authors in *.
     destruct (memN (t_author t) (tm_used m)) eqn:Em; [split; [split; auto|exact I]|].
     assert (Hnin : ~ In (t_author t) (map (fun x => fst (fst x)) (tm_votes m))).
     { intro Hin. apply B in Hin. apply memN_in in Hin. congruence. }
@@ -621,7 +621,7 @@ Section NodeInv.
     2:{ split; [exact H|]. split; [apply sle_refl|]. intros k; discriminate. }
     2:{ exfalso. eapply vote_verify_nopanic; eauto. }
     unfold vote_verify in Ev.
-    destruct (Node.stake c (v_author v) =? 0) eqn:Es; [discriminate|]. apply N.eqb_neq in Es.
+    gunf; destruct (0 <? Node.stake c (v_author v)) eqn:Es; [|discriminate]; apply N.ltb_lt in Es; apply N.neq_0_lt_0 in Es; cbn [negb] in *.
     destruct (sig_ok (v_author v) (CVote (v_hash v) (v_round v)) (v_sig v)) eqn:Esig; [|discriminate].
     apply sig_ok_inv in Esig. destruct Esig as [ct' [Esg Hct]].
     assert (Hv : honest (v_author v) = true ->
@@ -679,7 +679,7 @@ Section NodeInv.
     2:{ split; [exact H|]. split; [apply sle_refl|]. intros k; discriminate. }
     2:{ exfalso. eapply timeout_verify_nopanic; eauto. }
     unfold timeout_verify in Ev.
-    destruct (Node.stake c (t_author t) =? 0) eqn:Es; [discriminate|]. apply N.eqb_neq in Es.
+    gunf; destruct (0 <? Node.stake c (t_author t)) eqn:Es; [|discriminate]; apply N.ltb_lt in Es; apply N.neq_0_lt_0 in Es; cbn [negb] in *.
     destruct (sig_ok (t_author t) (CTimeout (t_round t) (qc_round (t_high_qc t))) (t_sig t)) eqn:Esig; [|discriminate].
     simpl in Ev.
     assert (Hg : qc_good s (t_high_qc t)) by (apply qc_good_of_verify; auto).
@@ -1093,7 +1093,7 @@ Section NodeInv.
     2:{ split; [exact H|apply sle_refl]. }
     2:{ split; [exact H|apply sle_refl]. }
     unfold block_verify in Ev.
-    destruct (Node.stake c (b_author b) =? 0); [discriminate|].
+    gunf; destruct (0 <? Node.stake c (b_author b)); [|discriminate]; cbn [negb] in *.
     destruct (negb _); [discriminate|].
     destruct (if qc_eqb (b_qc b) qc_genesis then ROk tt else qc_verify c (b_qc b)) as [[]|e|k] eqn:Eqv; try discriminate.
     assert (Gq : qc_good s (b_qc b)) by (apply qc_good_of_verify; auto).
